@@ -53,6 +53,10 @@ const FIELD_KEYS: [&str; 8] = ["v", "name", "k", "_x", "a b", "{", "\"q\"", "\u{
 
 pub fn id_name(i: usize, cfg: &DocCfg) -> String {
     let base = ["a", "b", "c", "d", "e", "f", "g", "h", "i", "j"][i % 10];
+    if i >= 10 {
+        // large documents: a7, b7, ... (the first ten names keep their special shapes)
+        return format!("{}{}", base, i / 10);
+    }
     if cfg.bang_ids && i % 4 == 3 {
         format!("!{}", base)
     } else if cfg.nasty && i % 5 == 4 {
@@ -213,7 +217,8 @@ pub fn initial(rng: &mut Rng, cfg: &DocCfg) -> Value {
     let mut doc = Value::Object(root);
     let key = ARRAY_KEYS[0];
     doc.as_object_mut().unwrap().insert(key.to_string(), json!([]));
-    let n = rng.range(1, 4.min(cfg.max_elems));
+    // large documents start with most of their elements in place
+    let n = if cfg.max_elems > 20 { rng.range(cfg.max_elems * 2 / 3, cfg.max_elems - 4) } else { rng.range(1, 4.min(cfg.max_elems)) };
     for _ in 0..n {
         if let Some(id) = free_id(rng, cfg, &doc) {
             let e = new_elem(rng, cfg, &id);
